@@ -1697,8 +1697,11 @@ class RefFS:
                 continue
             ino = g * ipg
             nscan = ipg
-            if self._uses_bg_flags() and not flags[g] & BG_INODE_ZEROED and 0 < gd['bg_itable_unused'] <= ipg:
-                # the tail of a table that was never zeroed holds stale bytes, not inodes
+            if self._uses_bg_flags() and 0 < gd['bg_itable_unused'] <= ipg:
+                # The tail of the table beyond the high-water mark is "never used": what lies there (stale
+                # bytes of a table that was never zeroed, or an inode a crashed writer stored before it
+                # could update bitmap and descriptor) is not an inode unless a directory entry names it --
+                # and then the entry is reported (R3.entry_unused).  e2fsck scans the same way.
                 nscan = ipg - gd['bg_itable_unused']
             for off in range(base, base + nscan * isz, isz):
                 ino += 1
